@@ -163,6 +163,7 @@ def Req.encOk (q : Req) : Bool := q.certs.all id
 
 inductive HookKind where
   | scep | notify
+  | other   -- ENRICHING, AUTHORIZING, NO_KIND or a string that is no kind at all
   deriving Repr, DecidableEq
 
 inductive CertType where
@@ -515,6 +516,8 @@ structure Server where
   includeRoot : Bool
   /-- the provisioner's `Capabilities` -/
   caps : List Str
+  /-- `GetContentEncryptionAlgorithm()`: the pkcs7 identifier `SignCSR` envelopes the reply with -/
+  encAlg : Nat
   deriving Repr, DecidableEq
 
 inductive CertTag where
@@ -703,6 +706,79 @@ def Served.carriesCert (r : Served) : Bool :=
   match r.out with
   | .pkiReply rp _ => decide (rp.inner > 0) || decide (rp.outer > 0) || rp.status == .success
   | _ => false
+
+/-! ### configuration formats: ca.json ⇄ linkedca (admin database), JSON, defaults
+
+  authority/provisioners.go `ProvisionerToLinkedca` (case `*provisioner.SCEP`),
+  `ProvisionerToCertificates` (case `ProvisionerDetails_SCEP`), `provisionerWebhookToLinkedca`,
+  `webhookToCertificates`; `provisioner.SCEP.Init` defaults. A provisioner reaches the handlers
+  through these conversions whenever the admin database is enabled: on the first start every ca.json
+  provisioner is converted to linkedca and stored, on every (re)load and restart it is converted back. -/
+
+/-- Everything of a SCEP provisioner's configuration the SCEP handlers depend on. -/
+structure ProvCfg where
+  cfg : Config
+  forceCN : Bool
+  caps : List Str
+  includeRoot : Bool
+  excludeIntermediate : Bool
+  /-- `MinimumPublicKeyLength` (0 = not set) -/
+  minKeyLen : Nat
+  /-- `EncryptionAlgorithmIdentifier` -/
+  encAlg : Nat
+  /-- a decrypter certificate / a decrypter key (PEM) is configured -/
+  decCert : Bool
+  decKey : Bool
+  deriving Repr, DecidableEq
+
+/-- webhook certificate type through `Webhook_CertType_value[…]` and back through `.String()`:
+    the unset type comes back as "ALL" -/
+def rtCertType : CertType → CertType
+  | .unset => .all
+  | c => c
+
+def rtHook (h : Hook) : Hook := { h with ct := rtCertType h.ct }
+
+/-- `ProvisionerToCertificates (ProvisionerToLinkedca p)`: every field comes back as it went, webhook
+    certificate types normalised. -/
+def roundTrip (p : ProvCfg) : ProvCfg :=
+  { p with cfg := { p.cfg with hooks := p.cfg.hooks.map rtHook } }
+
+/-- `Init`: the minimum key length defaults to 2048; identifiers outside 0..4 are refused
+    (the provisioner is then not a usable SCEP provisioner: `none`). -/
+def initDefaults (p : ProvCfg) : Option ProvCfg :=
+  if p.encAlg > 4 then none
+  else if p.minKeyLen % 8 ≠ 0 then none
+  else some { p with minKeyLen := if p.minKeyLen = 0 then 2048 else p.minKeyLen }
+
+/-- the field tables of the four conversion functions (destination field ← source expression),
+    re-extracted from the source on every run -/
+def toLinkedcaFields : List (String × String) :=
+  [("ForceCn", "p.ForceCN"), ("Challenge", "p.ChallengePassword"), ("Capabilities", "p.Capabilities"),
+   ("MinimumPublicKeyLength", "cast.Int32(p.MinimumPublicKeyLength)"), ("IncludeRoot", "p.IncludeRoot"),
+   ("ExcludeIntermediate", "p.ExcludeIntermediate"),
+   ("EncryptionAlgorithmIdentifier", "cast.Int32(p.EncryptionAlgorithmIdentifier)"),
+   ("Decrypter.Certificate", "p.DecrypterCertificate"), ("Decrypter.Key", "p.DecrypterKeyPEM"),
+   ("Decrypter.KeyUri", "p.DecrypterKeyURI"), ("Decrypter.KeyPassword", "[]byte(p.DecrypterKeyPassword)"),
+   ("Webhooks", "webhooks")]
+
+def toCertificatesFields : List (String × String) :=
+  [("ID", "p.Id"), ("Type", "p.Type.String()"), ("Name", "p.Name"), ("ForceCN", "cfg.ForceCn"),
+   ("ChallengePassword", "cfg.Challenge"), ("Capabilities", "cfg.Capabilities"), ("IncludeRoot", "cfg.IncludeRoot"),
+   ("ExcludeIntermediate", "cfg.ExcludeIntermediate"), ("MinimumPublicKeyLength", "int(cfg.MinimumPublicKeyLength)"),
+   ("EncryptionAlgorithmIdentifier", "int(cfg.EncryptionAlgorithmIdentifier)"), ("Claims", "claims"),
+   ("Options", "options"), ("DecrypterCertificate", "decrypter.Certificate"), ("DecrypterKeyPEM", "decrypter.Key"),
+   ("DecrypterKeyURI", "decrypter.KeyUri"), ("DecrypterKeyPassword", "string(decrypter.KeyPassword)")]
+
+def webhookToLinkedcaFields : List (String × String) :=
+  [("Id", "pwh.ID"), ("Name", "pwh.Name"), ("Url", "pwh.URL"),
+   ("Kind", "linkedca.Webhook_Kind(linkedca.Webhook_Kind_value[pwh.Kind])"), ("Secret", "pwh.Secret"),
+   ("DisableTlsClientAuth", "pwh.DisableTLSClientAuth"),
+   ("CertType", "linkedca.Webhook_CertType(linkedca.Webhook_CertType_value[pwh.CertType])")]
+
+def webhookToCertificatesFields : List (String × String) :=
+  [("ID", "wh.Id"), ("Name", "wh.Name"), ("URL", "wh.Url"), ("Kind", "wh.Kind.String()"), ("Secret", "wh.Secret"),
+   ("DisableTLSClientAuth", "wh.DisableTlsClientAuth"), ("CertType", "wh.CertType.String()")]
 
 /-! ### the names of the issued certificate (scep/authority.go `SignCSR`, default leaf template)
 
